@@ -392,12 +392,12 @@ class Engine:
                 return self.load(st, new)
         if lv[0] in ("tmp", "var") and lv in st.mem:
             return st.mem[lv]
-        cg = self.constexpr_global(lv)
+        cg = self.constexpr_global(lv, st)
         if cg is not None:
             return cg
         return ("rd", lv)
 
-    def constexpr_global(self, lv):
+    def constexpr_global(self, lv, st=None):
         """value of a member (or element) of a constexpr object with static storage whose initialiser is an aggregate of constants:
         `static constexpr descriptor d{A, B}` ... `d.from`"""
         if not (isinstance(lv, tuple) and lv[:1] in (("fld",), ("idx",)) and isinstance(lv[1], tuple) and lv[1][:1] == ("global",)):
@@ -417,7 +417,26 @@ class Engine:
             return None
         args = ini.get("args") or []
         if lv[0] == "idx":
-            if not is_const(lv[2]) or not (0 <= lv[2][1] < len(args)):
+            if not is_const(lv[2]):
+                # read at a symbolic index: the table's elements are remembered so that rules can relate the index to them
+                if st is not None and ("statictable", lv[1]) not in st.mem:
+                    elems = []
+                    for a_ in args:
+                        a_ = self._strip_e(a_)
+                        if isinstance(a_, dict) and "cv" in a_:
+                            elems.append(C(int(a_["cv"])))
+                        elif isinstance(a_, dict) and a_.get("k") == "un" and a_.get("op") == "&" and self._strip_e(a_["e"]).get("k") == "ref" and self._strip_e(a_["e"]).get("dk") == "fn":
+                            fn_ = self._strip_e(a_["e"])["fn"]
+                            elems.append(("addr", ("fn", fn_["n"], fn_["id"])))
+                        elif isinstance(a_, dict) and a_.get("k") == "ref" and a_.get("dk") == "fn":
+                            elems.append(("fn", a_["fn"]["n"], a_["fn"]["id"]))
+                        else:
+                            elems = None
+                            break
+                    if elems:
+                        st.mem[("statictable", lv[1])] = tuple(elems)
+                return None
+            if not (0 <= lv[2][1] < len(args)):
                 return None
             a = self._strip_e(args[lv[2][1]])
         else:
@@ -1038,6 +1057,28 @@ class Engine:
             return None
         return f
 
+    def global_closure(self, st, fr, g, ref_e):
+        """closure value of a constexpr global whose initialiser is a lambda expression (looked up by declaration id, then by name)"""
+        if not hasattr(self, "_global_lambdas"):
+            self._global_lambdas = {}
+            for sv in getattr(self.db, "statics", []) or []:
+                ini = self._strip_e(sv.get("init")) if sv.get("init") is not None else None
+                if isinstance(ini, dict) and ini.get("k") == "lambda":
+                    self._global_lambdas[sv.get("d")] = ini
+                    self._global_lambdas.setdefault(sv.get("n"), ini)
+        ini = self._global_lambdas.get((ref_e or {}).get("d")) or self._global_lambdas.get(g[1])
+        if ini is None:
+            return None
+        key = ("globalclosure", g, (ref_e or {}).get("d"))
+        if key in st.mem:
+            return st.mem[key]
+        for s2, v in self.ev(st, fr, ini):
+            c = s2.mem.get(v) if isinstance(v, tuple) and v[:1] in (("tmp",), ("var",)) else v
+            if isinstance(c, tuple) and c[:1] == ("closure",):
+                st.mem[key] = c
+                return c
+        return None
+
     def ev_call(self, st, fr, e):
         fnref = e.get("fn")
         args = e["args"]
@@ -1051,6 +1092,9 @@ class Engine:
                 if clo is None:
                     src = s.mem.get(("copyof", o))
                     clo = s.mem.get(src) if src is not None else None
+                if clo is None and isinstance(o, tuple) and o[:1] == ("global",):
+                    # a lambda stored in a constexpr variable (template): the closure is its initialiser
+                    clo = self.global_closure(s, fr, o, self._strip_e(args[0]))
                 if clo and clo[0] == "closure":
                     outs += self.call_closure(s, self._fr(s, fr), clo, args[1:], loc, callee_id=fnref["id"])
                 else:
@@ -1087,7 +1131,12 @@ class Engine:
             return outs
         # identity helpers
         if name in IDENTITY_FUNCS and len(args) == 1:
-            return self.ev_lv(st, fr, args[0])
+            outs_ = self.ev_lv(st, fr, args[0])
+            if not self.is_rec(e.get("t") or {}):
+                # forwarding a scalar held in a member / element slot whose value is known (a tuple element, a field of a local
+                # aggregate): where the value is wanted, it is that value
+                outs_ = [(s_, s_.mem[lv_] if isinstance(lv_, tuple) and lv_[:1] in (("fld",), ("idx",)) and lv_ in s_.mem and not getattr(self, "_want_lv_identity", False) else lv_) for s_, lv_ in outs_]
+            return outs_
         if name == "std::addressof" and len(args) == 1:
             return [(s, self.addr(lv)) for s, lv in self.ev_lv(st, fr, args[0])]
         if name in ("std::begin", "std::end", "std::cbegin", "std::cend", "std::data", "std::size", "std::ssize") and len(args) == 1 and (self._strip_e(args[0]).get("t") or {}).get("k") == "array" \
@@ -1113,6 +1162,50 @@ class Engine:
                         outs.append((s, ("fld", lv, "$t%d" % i_)))
                     else:
                         outs.append((s, ("idx", lv, C(i_))))
+                return outs
+        if name in ("std::make_tuple", "std::forward_as_tuple", "std::tie", "std::make_pair") and (name != "std::make_pair" or len(args) == 2) and not (callee is not None and False):
+            # tuple / pair factories: one slot per element (values; class-type elements are copied as objects)
+            names_ = ["first", "second"] if name == "std::make_pair" else ["$t%d" % i_ for i_ in range(len(args))]
+            outs = []
+            for s, av in self.ev_args(st, fr, args, ["v"] * len(args)):
+                obj = self.fresh("tmp", "pair" if name == "std::make_pair" else "tuple")
+                for nm_, a_, ae_ in zip(names_, av, args):
+                    a_ = self.glvalue_arg_value(s, ae_, a_)
+                    if self.is_rec(self._strip_e(ae_).get("t") or {}) and isinstance(a_, tuple):
+                        self.copy_object(s, ("fld", obj, nm_), a_)
+                    else:
+                        s.mem[("fld", obj, nm_)] = a_
+                s.mem[("tuplelen", obj)] = len(args)
+                self.emit(s, "CTOR", obj, name, list(av), loc=loc, extra={"t": e.get("t"), "native": True})
+                outs.append((s, obj))
+            return outs
+        if name == "std::apply" and len(args) == 2:
+            # std::apply(f, tuple): f(get<0>(tuple), get<1>(tuple), ...) for a closure f and a tuple built by the factories above
+            outs = []
+            handled = True
+            for s, (fv, tv) in self.ev_args(st, fr, args, ["v", "lv"]):
+                clo = s.mem.get(fv) if isinstance(fv, tuple) else None
+                if clo is None and isinstance(fv, tuple):
+                    src_ = s.mem.get(("copyof", fv))
+                    clo = s.mem.get(src_) if src_ is not None else None
+                if isinstance(fv, tuple) and fv[:1] == ("closure",):
+                    clo = fv
+                tobj = tv
+                for _ in range(4):
+                    if s.mem.get(("tuplelen", tobj)) is not None:
+                        break
+                    nx_ = s.mem.get(("copyof", tobj)) or s.mem.get(("alias", tobj))
+                    if nx_ is None:
+                        break
+                    tobj = nx_
+                n_ = s.mem.get(("tuplelen", tobj))
+                if not (clo and clo[0] == "closure") or n_ is None:
+                    handled = False
+                    break
+                elems = [("fld", tobj, "$t%d" % i_) for i_ in range(n_)]
+                for s2, rv in self.call_closure(s, self._fr(s, fr), clo, [], loc, prevals=elems):
+                    outs.append((s2, rv))
+            if handled:
                 return outs
         if name == "std::exchange" and len(args) == 2:
             # old = obj; obj = new_value; return old
